@@ -235,6 +235,12 @@ def run_case(case):
                     break
             return {"viol": viol, "nontrivial": npd_total > 0, "outcome": f"subsets-ok/{len(masks)}" if not viol else viol[0]["sig"], "points": npd_total}
         cf = stiffness_field(case["system"], MAGS[case["mag"]], t, v, case["extras"])
+        if case.get("soften"):
+            # a lattice just before an elastic instability: one shear constant almost vanishes at ONE grid point
+            # (still positive definite; condition number 1/soften times larger)
+            cf[(4, 4)][0, 0] *= case["soften"]
+            if len(t) > 1:
+                cf[(6, 6)][-1, -1] *= case["soften"]
         duck = make_duck(cf, t, v, case["mass"], c_, case.get("order", "given"))
         try:
             duck._calculate_compliances()
@@ -271,7 +277,7 @@ def run_case(case):
 
 def explore(ctx):
     ctx.rule = ("complete product: 9 crystal-system tensor shapes x 3 magnitudes x {non-zero components only, + zero-valued extras} x "
-                "2 grid shapes x 3 cell masses x 2 key orders on a duck calculator driving the real _calculate_compliances and "
+                "2 grid shapes x 3 cell masses x 2 key orders (+ 32 nearly singular positive-definite tensors, one shear constant reduced by 1e-3 ... 1e-9 at one grid point) on a file-less calculator object driving the real _calculate_compliances and "
                 "CijVolumeBaseInterface, all 4096 subsets of the twelve non-orthotropic components added to the nine orthotropic ones, all "
                 "ordered sequences of <=2 (<=3 thorough) attribute reads on one interface object (each read equal to a fresh object's), "
                 "plus real Calculators (3 data sets x 4 systems x 4 cell masses from 1 to 24000 g/mol; three of them and three duck cases also in an interpreter started with -O; cell mass written in plain, exponent, integer and signed notation) and all ordered pairs (triples thorough) of real Calculators kept "
@@ -287,6 +293,9 @@ def explore(ctx):
                     for mass in (1.0, 40.3044, 803.1):
                         for order in ("given", "reversed"):
                             cases.append({"kind": "duck", "system": system, "mag": mag, "extras": extras, "grid": grid, "mass": mass, "order": order})
+    # nearly singular but positive-definite tensors (condition numbers up to ~1e11)
+    cases += [{"kind": "duck", "system": system, "mag": "gpa", "extras": False, "grid": grid, "mass": 40.3044, "order": "given", "soften": f}
+              for system in ("orthorhombic", "cubic", "monoclinic", "triclinic") for grid in GRIDS for f in (1e-3, 1e-5, 1e-7, 1e-9)]
     res = ctx.run(MOD, "run_case", cases, part="duck-product")
     # every subset of the 12 non-orthotropic components added to the nine orthotropic ones (2^12), in chunks
     chunks = [list(range(m, min(m + 64, 4096))) for m in range(0, 4096, 64)]
